@@ -283,6 +283,9 @@ func Check(env *core.Env, rep *core.Report) *core.Result {
 	doubleInc := DoubleInclusion(env, rep, map[bool]int{false: 2500, true: 40000}[thorough])
 	validated += doubleInc
 
+	// Cancel while an included pipeline is being scheduled
+	validated += NestedCancel(env, rep, map[bool]int{false: 5, true: 100}[thorough])
+
 	// nested pipelines built from configuration files, through the binary
 	nestedBin := NestedBinCheck(env, rep, map[bool]int{false: 24, true: 400}[thorough])
 	validated += nestedBin
